@@ -6,6 +6,7 @@ as an implementation-level oracle."""
 import itertools
 
 import c02adv
+import c02conc
 import c02x
 import env
 import pipeline
@@ -14,13 +15,15 @@ from core import Exn
 from env import NOW
 
 CLAIM = {
-    "text": "Coq theorems in Props/C02.v. C02_accept_iff, proved for EVERY configuration, clock, response content and signature state of the pipeline model (not by enumerating the table): is_ok(parse_response c r) = otherwise_valid c r && documented c r, where documented = every present signature verifies && (want_response_signed -> response signed) && (want_assertions_signed -> every assertion read is signed) && (want_assertions_or_response_signed -> response signed || every assertion signed), and otherwise_valid is the pipeline's own non-signature part on the signature-stripped document; corollaries: a present invalid signature is never ignored, a missing required signature is never compensated. The proof goes through the force-require / catch / retry structure of Entity._parse_response including the state the failed first attempt leaves behind. C02_options_from_sp_section / C02_config_class_irrelevant / C02_other_sections_irrelevant / C02_client_accept_iff: the three options a client works with are the explicit values of the sp section (booleans or the strings true/false), else the defaults (true, false, false), for EVERY configuration class (def_context sp, empty, idp ...) and whatever other roles the configuration serves, and the iff holds for the client built from it. C02_history (+ _accept_iff, _state_irrelevant, _invalid_never_accepted, _no_compensation), by induction over operation sequences of the state-passing client model (SetOpts / Parse; state = options, cached subjects, identifiers and signature values seen): the verdict of a step depends only on that step's message and the options in force, for every prefix and client state - so a tampered copy reusing the ID and SignatureValue of an accepted message is refused exactly as on a fresh client. Tie: the full 8 x 4 x 2 x corruption table (plus multi-assertion and default-option variants); the 27 (absent/False/True)^3 option sections x 4 configuration layouts (SPConfig / generic Config, sp only / sp+idp) + string values + config_factory + IdPConfig, each x 4 signing states x {plain, encrypted}; and histories on long-lived clients (one per option setting and class; one client whose options change between steps; eight clients on ONE SecurityContext) walking every tampered / re-digested / same-ID message kind directly before and after its genuine twin - implementation vs model at every step, every run. ENCRYPTED ADVICE (Model/AdviceSig.v over C17's tree model Model.Encrypt.parse_response_t of parse_assertion with both decrypt loops and the advice pass): C02_advice_stage_invalid_never_ignored / C02_advice_stage_bad_refused - for every tree, key set, tool policy, fault schedule, requirement flag and retry state the assertion stage succeeds only if the text was decrypted and no assertion found inside an EncryptedAssertion of an Advice carries a signature that does not verify; C02_invalid_never_ignored_advice - an accepted response was accepted by an attempt (document as received, or what the failed first attempt left) for which that holds; C02_advice_table - the iff evaluated on 8 settings x response sig x assertion sig x advice sig x plain/encrypted x one/two advice EncryptedAssertions. Tie: sp_advice_signature_table - 8 long-lived clients x {plain, encrypted} main assertion x response/assertion sig {none, valid, corrupt} x advice assertion {unsigned, valid, corrupt, wrong key, valid / wrong key without its own Issuer} + two-advice shapes, each bad message followed by its genuine twin, real decryption and verification vs the model, oracle = documented rule and every advice signature present verifies.",
+    "text": "Coq theorems in Props/C02.v. C02_accept_iff, proved for EVERY configuration, clock, response content and signature state of the pipeline model (not by enumerating the table): is_ok(parse_response c r) = otherwise_valid c r && documented c r, where documented = every present signature verifies && (want_response_signed -> response signed) && (want_assertions_signed -> every assertion read is signed) && (want_assertions_or_response_signed -> response signed || every assertion signed), and otherwise_valid is the pipeline's own non-signature part on the signature-stripped document; corollaries: a present invalid signature is never ignored, a missing required signature is never compensated. The proof goes through the force-require / catch / retry structure of Entity._parse_response including the state the failed first attempt leaves behind. C02_options_from_sp_section / C02_config_class_irrelevant / C02_other_sections_irrelevant / C02_client_accept_iff: the three options a client works with are the explicit values of the sp section (booleans or the strings true/false), else the defaults (true, false, false), for EVERY configuration class (def_context sp, empty, idp ...) and whatever other roles the configuration serves, and the iff holds for the client built from it. C02_history (+ _accept_iff, _state_irrelevant, _invalid_never_accepted, _no_compensation), by induction over operation sequences of the state-passing client model (SetOpts / Parse; state = options, cached subjects, identifiers and signature values seen): the verdict of a step depends only on that step's message and the options in force, for every prefix and client state - so a tampered copy reusing the ID and SignatureValue of an accepted message is refused exactly as on a fresh client. Tie: the full 8 x 4 x 2 x corruption table (plus multi-assertion and default-option variants); the 27 (absent/False/True)^3 option sections x 4 configuration layouts (SPConfig / generic Config, sp only / sp+idp) + string values + config_factory + IdPConfig, each x 4 signing states x {plain, encrypted}; and histories on long-lived clients (one per option setting and class; one client whose options change between steps; eight clients on ONE SecurityContext) walking every tampered / re-digested / same-ID message kind directly before and after its genuine twin - implementation vs model at every step, every run. ENCRYPTED ADVICE (Model/AdviceSig.v over C17's tree model Model.Encrypt.parse_response_t of parse_assertion with both decrypt loops and the advice pass): C02_advice_stage_invalid_never_ignored / C02_advice_stage_bad_refused - for every tree, key set, tool policy, fault schedule, requirement flag and retry state the assertion stage succeeds only if the text was decrypted and no assertion found inside an EncryptedAssertion of an Advice carries a signature that does not verify; C02_invalid_never_ignored_advice - an accepted response was accepted by an attempt (document as received, or what the failed first attempt left) for which that holds; C02_advice_table - the iff evaluated on 8 settings x response sig x assertion sig x advice sig x plain/encrypted x one/two advice EncryptedAssertions. Tie: sp_advice_signature_table - 8 long-lived clients x {plain, encrypted} main assertion x response/assertion sig {none, valid, corrupt} x advice assertion {unsigned, valid, corrupt, wrong key, valid / wrong key without its own Issuer} + two-advice shapes, each bad message followed by its genuine twin, real decryption and verification vs the model, oracle = documented rule and every advice signature present verifies. CONCURRENT USE OF ONE CLIENT (Model/Interleave.v: steps Write / Run / Read of the tool uses of several calls interleave arbitrarily over ONE shared file map; the tool is any function of what it sees): C02_concurrent_own_document - for ANY step sequence (any number of callers, any interleaving) in which caller c's steps are the steps of its call and no other caller writes to a file of that call, every tool run of c sees the text written for c and c reads the tool's answer to that text, i.e. c observes exactly what it observes alone; C02_concurrent_two_calls (+ _verdict) / C02_concurrent_three_calls - for every interleaving (inductive merge) of the step sequences of two / three calls with separate scratch files each call gets the observations and hence the verdict of its own document; C02_concurrent_shared_path_refuted / C02_concurrent_shared_output_refuted - with ONE shared input (output) path an interleaving exists in which the call with the refused text is accepted on the other call's text (reads the answer to the other call). Tie, every run: about 270 forced schedules on the real code - two and three threads on ONE Saml2Client (and on eight clients sharing ONE SecurityContext) calling parse_authn_request_response / correctly_signed_response / _check_signature / decrypt at the same time with the genuine message, a tampered / re-digested / corrupted copy and another signed message under the SAME ids; the stand-in tool is started through a gate that parks the caller before the tool starts (input file written) and after it ended (output not yet read), one thread runs at a time and the parked ones are resumed round by round in every order of two callers (sampled orders of three); recorded per tool run: input / output path and content digests when written, when the tool starts, when it ended and when the library reads - oracle: the tool saw the text written for this call, that text is the caller's own (tool-saw-other-callers-document:*), files of calls alive together are distinct (temp-path:*), every caller gets exactly the result it gets alone (concurrent:accepted-invalid-signature:* / refused-valid:* / result-of-other-document:*); the recorded step sequence of every schedule is run through the model (unit concurrent_file_map).",
     "note": "Trusted: Coq kernel + vm_compute; pipeline and client models tied to the code by the tables and histories; 'verifies' is the outcome of _check_signature with the stand-in xmlsec1 (real RSA and digests; real xmlsec1 is not installed) - what a positive verdict covers is C01's subject; the harness derives each message's signature verdicts from what it signed and edited; advice assertions that are not the content of an EncryptedAssertion are outside (their own signature is never looked at by the code; noted under C17); histories are sampled (seeded), the tables are exhaustive.",
     "technique": "machine-checked proof (Coq: case analysis over the retry structure + state-insensitivity lemmas; induction over operation sequences; configuration store lemmas) + exhaustive-table and history correspondence on long-lived objects + oracle",
 }
 TRUSTED = ["modelled (shared with C17, Model/Encrypt.v): parse_assertion on document trees incl. the advice pass decrypt_assertions(advice.encrypted_assertion, decr_text, issuer); Model/AdviceSig.v adds definitions only",
            "modelled: Entity._parse_response retry structure, correctly_signed_response, AuthnResponse._assertion signature branch, decrypt_assertions signature check (Model/Response.v)",
            "modelled: Config.setattr/getattr/load_special/load, Base.__init__ option resolution, the client as a SetOpts/Parse state machine (Model/Client.v); the three option names are arguments of the sp section (config.SP_ARGS - checked every run)",
+           "modelled: the file traffic of one tool use (make_temp / Popen / ntf.read in CryptoBackendXmlSec1.validate_signature, decrypt, _run_xmlsec) as Write / Run / Read over a shared file map (Model/Interleave.v)",
+           "the schedule gate (harness/c02conc.py): threads switch only at the start and at the end of a tool run; other switch points are not exercised",
            "stand-in xmlsec1 signs and verifies (harness/tools/xmlsec_core.py)"]
 ASSUMPTIONS = ["signature verdicts are inputs of the model (Some (Ok tt) / Some (Err SignatureError) / None); the harness derives them from what it signed, corrupted, edited after signing or spliced in from another message",
                "SetOpts on one client = assigning client.want_*; on a shared SecurityContext = switching to the client configured with those options"]
@@ -28,7 +31,8 @@ RULE = ("cells = 8 option settings (+ options left at their defaults) x response
         "x {plain, encrypted, encrypted-unopenable, two encrypted} x k identities; configuration table = {SPConfig, Config} x {sp, sp+idp} x {absent, False, True}^3 "
         "(+ true/false strings, config_factory, IdPConfig) x 4 signing states x {plain, encrypted} x {genuine, one non-genuine kind}; histories = per (class, option setting) "
         "client: every group's G,v,G,v,... over all kinds {tamper-nameid, tamper-attr, redigest, same-id-unsigned, same-id-resigned, corrupt-R/A, wrongkey-R/A, fresh-id}; "
-        "mixed-option walks on one client and on eight clients sharing one SecurityContext; advice table = 8 settings x {plain, encrypted} x rsig x asig x 6 advice kinds + two-advice shapes; every step is non-trivial (distinct session, position, message, options)")
+        "mixed-option walks on one client and on eight clients sharing one SecurityContext; concurrent schedules = 8 option settings x 6 signed groups x {genuine + invalid kind in both orders, genuine + same-id-resigned} "
+        "+ three callers x sampled orders, + SecurityContext-level calls (correctly_signed_response, _check_signature, decrypt) on one client and on a shared SecurityContext; advice table = 8 settings x {plain, encrypted} x rsig x asig x 6 advice kinds + two-advice shapes; every step is non-trivial (distinct session, position, message, options)")
 
 SIGS = [None, "valid", "corrupt", "wrongkey"]
 
@@ -124,7 +128,10 @@ def run(ctx):
         config_classes(ctx)
         histories(ctx)
         adv_cases = c02adv.table(ctx)
+        c02conc.run_all(ctx)
     ctx.exhaustive = True
+    ctx.correspond("concurrent_file_map", c02conc.IMPORTS, c02conc.MODEL, c02conc.CTYPE,
+                   [dict(id=i, coq=t["coq"], impl=t["seen"], show=dict(t["show"], events=t["events"])) for i, t in enumerate(c02conc.TRACES)], shard=400)
     ctx.correspond("sp_advice_signature_table", c02adv.IMPORTS, c02adv.MODEL, c02adv.CTYPE, adv_cases, shard=100)
     ctx.correspond("sp_pipeline_signature_table", pipeline.IMPORTS, pipeline.MODEL_ACCEPT, pipeline.CTYPE, cases, shard=150)
     for unit, per_case in (("client_configuration_table", 12), ("client_histories", 9)):
@@ -278,6 +285,8 @@ def histories(ctx):
 def replay(ctx, payload):
     env.tool_inprocess(True)
     cell = payload.get("input")
+    if isinstance(cell, dict) and "concurrent" in cell:
+        return c02conc.replay(cell["concurrent"])
     if isinstance(cell, dict) and "script" in cell:
         print("replay of a session on long-lived object(s); the last step is the failing one")
         c02x.replay_script(cell["script"])
